@@ -135,11 +135,12 @@ def gen_numbers(tier):
     return sorted(ns)
 
 
-def run_conf(h_conf, w, contents, timeout=600):
+def run_conf(h_conf, w, contents, timeout=600, state=None):
     """contents: list of bytes or None; returns list of dict name->bytes (None for a case that did not complete)"""
     os.makedirs(w, exist_ok=True)
     inp = '\n'.join('-' if c is None else c.hex() for c in contents) + '\n'
     env = H.san_env(w)
+    env.update(state or {})
     r = sh([h_conf, w], input=inp.encode(), env=env, timeout=timeout)
     out = []
     for l in r.stdout.decode().splitlines():
@@ -155,10 +156,10 @@ def run_conf(h_conf, w, contents, timeout=600):
     return out, r.returncode, reports
 
 
-def run_resilient(h_conf, w, contents):
+def run_resilient(h_conf, w, contents, state=None):
     res, aborts, pos = [], [], 0
     while pos < len(contents) and len(aborts) < 40:
-        out, rc, reports = run_conf(h_conf, w, contents[pos:])
+        out, rc, reports = run_conf(h_conf, w, contents[pos:], state=state)
         res += out
         pos += len(out)
         if pos < len(contents):
@@ -236,12 +237,46 @@ def run(ck):
             if v2 < v1:
                 ck.violation('C08:not_monotone:%s:%d%s->%d%s' % (opt.decode(), n1, suf.decode(), n2, suf.decode()), {'option': opt.decode(), 'n1': n1, 'v1': v1, 'n2': n2, 'v2': v2})
                 break
+    # caller states: the parsed values must not depend on the ambient errno or on descriptor 0 being closed when the call is made
+    # (differential: same file, plain state - which was compared with the reference above)
+    plain = {}
+    for c, g in zip(allc, got):
+        if g is not None:
+            plain.setdefault(c, g)
+    if ck.tier == 'thorough':
+        sub = list(plain)
+    else:
+        keep = set(c for (label, c) in files if label.startswith(('1:', 'long', 'absent', 'empty', 'garbage')) and (label.endswith(':s0:plain') or not label.startswith('1:')))
+        keep |= set(c for (label, c) in files if label.startswith('2:') and label.endswith(':plain'))
+        edge = set(n for n in nums if n < 40 or 250 <= n <= 260 or 1020 <= n <= 1030 or 2040 <= n <= 2050 or n > 3000)
+        keep |= set(c for (opt, suf, n, c) in numfiles if n in edge)
+        sub = [c for c in plain if c in keep]
+    STATES = {'errno=ERANGE': {'VERIF_CONF_ERRNO': '34'}, 'errno=EINTR': {'VERIF_CONF_ERRNO': '4'}, 'errno=ENOENT': {'VERIF_CONF_ERRNO': '2'}, 'fd0_closed': {'VERIF_CONF_CLOSE0': '1'}}
+    sjobs = []
+    for sn, senv in STATES.items():
+        k = max(1, (len(sub) + 7) // 8)
+        for i in range(0, len(sub), k):
+            sjobs.append((sn, senv, sub[i:i + k], len(sjobs)))
+    n_state = 0
+    for (sn, senv, part, ji), (res, aborts) in zip(sjobs, pmap(lambda a: run_resilient(h_conf, os.path.join(ck.workdir, 'st%d' % a[3]), a[2], state=a[1]), sjobs)):
+        for pos, rc, reports in aborts:
+            ck.violation('C08:abort:state=%s' % sn, {'state': sn, 'file': (part[pos] or b'').decode('latin-1')[:600] if pos < len(part) else None, 'rc': rc, 'sanitizer': reports[:1]})
+        for c, g in zip(part, res):
+            if g is None:
+                continue
+            n_state += 1
+            diff = sorted(k.decode() for k in plain[c] if g.get(k) != plain[c][k])
+            outcomes.add(('state', sn, tuple(diff)))
+            if diff:
+                ck.violation('C08:value_depends_on_caller_state:%s:%s' % (sn, '+'.join(diff)), {'state': sn, 'file': (c or b'').decode('latin-1')[:500], 'options': diff,
+                             'plain': {k: plain[c][k.encode()].decode('latin-1')[:60] for k in diff}, 'in_state': {k: g.get(k.encode(), b'?').decode('latin-1')[:60] for k in diff}})
+    evals += n_state
     # round trip through the REAL CLI: what `snoopyctl conf` prints for the file, written back into a config file, yields the same setting
     vsets = list(distinct_valuesets)
     n_rt, n_cli = cli_roundtrip(ck, h_conf, vsets, distinct_valuesets, outs)
     ck.assumptions += ['reference parser engine/refini.py is the oracle; options it marks loose (continuation lines, garbage after digits, invalid after valid) are not compared: %d' % n_loose]
     ck.coverage(states=len(outcomes), transitions=evals + n_rt + n_cli, traces_validated_against_impl=evals + n_rt + n_cli, evaluations=evals + n_rt + n_cli, distinct_nontrivial=len(outcomes),
-                rule='all files of the bounded grammar + number sweeps; distinct = distinct resulting option-value sets', files=len(files), number_files=len(numfiles),
+                rule='all files of the bounded grammar + number sweeps; distinct = distinct resulting option-value sets', files=len(files), number_files=len(numfiles), caller_state_runs=n_state,
                 roundtrips=n_rt, snoopyctl_runs=n_cli, samples=samples or [{'note': 'none'}])
 
 
